@@ -528,24 +528,29 @@ func main() {
 
 	// concatStrings: does the "plain string, then f-string" branch test for an f-string without variables before
 	// it indexes Vars[0]?
-	guard := false
+	guard, guardBoth := false, false
 	ast.Inspect(gp.Func("concatStrings").Body, func(n ast.Node) bool {
 		is, ok := n.(*ast.IfStmt)
-		if !ok {
+		if !ok || len(is.Body.List) == 0 {
 			return true
 		}
 		c := strings.ReplaceAll(gp.Src(is.Cond), " ", "")
-		if strings.Contains(c, ".FString==nil&&") && strings.HasSuffix(c, ".FString!=nil") && len(is.Body.List) > 0 {
-			if inner, ok := is.Body.List[0].(*ast.IfStmt); ok {
-				ic := strings.ReplaceAll(gp.Src(inner.Cond), " ", "")
-				if strings.HasPrefix(ic, "len(") && strings.HasSuffix(ic, ".FString.Vars)==0") && endsControl(inner.Body.List, "fail") {
-					guard = true
-				}
-			}
+		guarded := false
+		if inner, ok := is.Body.List[0].(*ast.IfStmt); ok {
+			ic := strings.ReplaceAll(gp.Src(inner.Cond), " ", "")
+			guarded = strings.HasPrefix(ic, "len(") && strings.HasSuffix(ic, ".FString.Vars)==0") && endsControl(inner.Body.List, "fail")
+		}
+		switch {
+		case strings.Contains(c, ".FString==nil&&") && strings.HasSuffix(c, ".FString!=nil"):
+			guard = guarded
+		case strings.Contains(c, ".FString!=nil&&") && strings.HasSuffix(c, ".FString!=nil"):
+			guardBoth = guarded
 		}
 		return true
 	})
 	out.Def("concatGuardsBareFString", "Bool", xlib.LeanBool(guard))
+	// the same test in the "both are f-strings" branch (grammar_parse.go:433)
+	out.Def("concatGuardsBothFString", "Bool", xlib.LeanBool(guardBoth))
 
 	// grammar tables
 	out.Def("keywords", "List String", xlib.LeanStrList(stringKeys(gp, gp.VarValue("keywords"))))
